@@ -19,6 +19,69 @@ PARSER = "crates/parser/src/parser.rs"
 FILE = "crates/parser/src/file.rs"
 
 
+class _BuildTree:
+    """structural reading of Parser::build_tree: the token cursor (the local handed to `tokens.get(..)`), the emissions, the trailing loop"""
+
+    def __init__(self, run, model):
+        self.f = bt = model.fn("build_tree", PARSER)
+        gets = [c for c in S.walk(bt.body) if c["k"] == "MethodCall" and c["method"] == "get" and c["args"] and c["args"][0]["k"] == "Path"
+                and len(c["args"][0]["segs"]) == 1 and "tokens" in S.idents(c["recv"])]
+        names = [c["args"][0]["segs"][0] for c in gets]
+        if not names:
+            raise AnalysisIncomplete("build_tree: no tokens.get(<cursor>) found")
+        self.cur = max(set(names), key=names.count)
+        self.lets = {}
+        for l in S.find(bt.body, "Local"):
+            if l.get("init") is not None:
+                for b in S.pat_bindings(l["pat"]):
+                    self.lets.setdefault(b, []).append(l["init"])
+
+    def is_cur_get(self, e):
+        return any(c["k"] == "MethodCall" and c["method"] == "get" and c["args"] and S.is_path(c["args"][0], self.cur) and "tokens" in S.idents(c["recv"])
+                   for c in S.walk(e))
+
+    def break_value(self, cond, eof, triv, depth=0):
+        """value of a boolean expression under (token is eof, token is trivia); None if it contains anything else"""
+        def atom(e):
+            if e["k"] == "Path" and len(e["segs"]) == 1 and e["segs"][0] in self.lets and depth < 3:
+                return self.break_value(self.lets[e["segs"][0]][-1], eof, triv, depth + 1)
+            if e["k"] == "Binary" and e["op"] in ("==", "!="):
+                sides = [e.get("left", e.get("lhs")), e.get("right", e.get("rhs"))]
+                if any(x["k"] == "Macro" and x["name"] == "T" and S.norm_ws(x.get("tokens") or "") == "eof" for x in sides) and \
+                        any(x["k"] == "Field" and x.get("member") == "kind" for x in sides):
+                    return eof if e["op"] == "==" else (not eof)
+            if e["k"] == "MethodCall" and e["method"] == "is_trivia" and not e["args"]:
+                return triv
+            raise ValueError(S.norm_ws(str(e.get("k"))))
+        try:
+            return S.bool_eval(cond, atom)
+        except (ValueError, TypeError):
+            return None
+
+    def trailing_loop(self):
+        for w in S.find(self.f.body, "While"):
+            if w["cond"]["k"] == "Let" and self.is_cur_get(w["cond"]):
+                return w
+        return None
+
+    def trailing_break_table(self):
+        """{(eof, triv): the loop stops}, or None when the stop condition is not a formula over those two questions"""
+        w = self.trailing_loop()
+        if w is None:
+            return None
+        brk = [i for i in S.find(w["body"], "If") if any(True for _ in S.find(i["then"], "Break")) and i.get("else") is None]
+        if len(brk) != 1:
+            return None
+        table = {}
+        for eof in (True, False):
+            for triv in (True, False):
+                v = self.break_value(brk[0]["cond"], eof, triv)
+                if v is None:
+                    return None
+                table[(eof, triv)] = v
+        return table
+
+
 def r12_1(run, model):
     run.rule("R12.1", "kind tables coincide: TokenKind[i] == MySyntaxKind[i] for every token kind that can be emitted; kind_from_raw is "
                       "bounded by the last MySyntaxKind variant")
@@ -36,9 +99,12 @@ def r12_1(run, model):
     ok = all(d[1] == "Eof" for d in diverge)
     run.ob("R12.1", "only Eof diverges", ok, site(TB.SYNTAX, None), f"diverging indices: {diverge}")
     # Eof never emitted as a token: the trivia loop stops at eof and Advance only follows a real token
-    bt = model.fn("build_tree", PARSER)
-    txt = S.norm_ws(run.facts.text(PARSER, bt.body["sp"]))
-    run.ob("R12.1", "build_tree|eof is not emitted by the trivia loop", "token.kind==T![eof]||!token.kind.is_trivia()" in txt, site(PARSER, bt.node["sp"]), "trivia loop breaks at eof")
+    B = _BuildTree(run, model)
+    bt = B.f
+    table = B.trailing_break_table()
+    ok_eof = table is not None and table[(True, True)] and table[(True, False)]
+    run.ob("R12.1", "build_tree|eof is not emitted by the trivia loop", ok_eof, site(PARSER, bt.node["sp"]),
+           f"the trailing loop stops under (eof, trivia): {table}" if table is not None else "the stop condition of the trailing loop is not a formula over `kind == eof` and `is_trivia()`")
     # kind_from_raw bound
     for fn in model.fns(TB.SYNTAX):
         if fn.name == "kind_from_raw":
@@ -58,7 +124,9 @@ def r12_2(run, model):
     run.rule("R12.2", "every token enters the tree exactly once: each builder.token(..) is followed by `cursor += 1` in the same block, "
                       "nothing else moves the cursor, Parser::advance pushes exactly one Advance per skipped token, and file() loops "
                       "until the real end of input")
-    bt = model.fn("build_tree", PARSER)
+    B = _BuildTree(run, model)
+    bt, cur = B.f, B.cur
+    par = S.Parents(bt.body)
     n = 0
     for blk in S.find(bt.body, "Block"):
         stmts = blk["stmts"]
@@ -67,14 +135,21 @@ def r12_2(run, model):
             if e and e["k"] == "MethodCall" and e["method"] == "token" and S.is_path(e["recv"], "builder"):
                 n += 1
                 nxt = stmts[i + 1] if i + 1 < len(stmts) else None
-                ok = nxt is not None and S.norm_ws(run.facts.text(PARSER, nxt["sp"])).rstrip(";") == "cursor+=1"
-                arg = S.norm_ws(run.facts.text(PARSER, e["args"][1]["sp"])) if len(e["args"]) > 1 else ""
-                run.ob("R12.2", f"build_tree|token emission #{n} advances the cursor", ok and arg == "token.text", site(PARSER, st["sp"]),
-                       f"builder.token(.., {arg}) followed by `{S.norm_ws(run.facts.text(PARSER, nxt['sp'])) if nxt else None}`",
+                ne = nxt.get("expr") if nxt is not None and nxt["k"] == "ExprStmt" else None
+                ok = ne is not None and ne["k"] == "Binary" and ne["op"] == "+=" and S.is_path(ne.get("left", ne.get("lhs")), cur) and \
+                    (ne.get("right", ne.get("rhs")) or {}).get("value") in ("1", 1)
+                # the text emitted is the text of the token under the cursor: `<t>.text` where <t> is bound from tokens.get(cursor) around it
+                a1 = e["args"][1] if len(e["args"]) > 1 else None
+                tok = a1["base"]["segs"][0] if a1 is not None and a1["k"] == "Field" and a1.get("member") == "text" and a1["base"]["k"] == "Path" and len(a1["base"]["segs"]) == 1 else None
+                bound = tok is not None and any(a["k"] in ("If", "While") and a["cond"]["k"] == "Let" and tok in S.pat_bindings(a["cond"]["pat"]) and B.is_cur_get(a["cond"])
+                                                for a in par.ancestors(e))
+                arg = S.norm_ws(run.facts.text(PARSER, a1["sp"])) if a1 is not None else ""
+                run.ob("R12.2", f"build_tree|token emission #{n} advances the cursor", ok and bound, site(PARSER, st["sp"]),
+                       f"builder.token(.., {arg}) followed by `{S.norm_ws(run.facts.text(PARSER, nxt['sp'])) if nxt else None}`; the token is the one under `{cur}`: {bound}",
                        witness="a token is emitted twice or skipped: the tree text differs from the input")
     run.floor("token emission sites in build_tree", n, 2)
-    moves = [x for x in S.walk(bt.body) if x["k"] == "Binary" and x["op"] in ("+=", "-=") and S.is_path(x["left"], "cursor")] + \
-            [x for x in S.walk(bt.body) if x["k"] == "Assign" and S.is_path(x["left"], "cursor")]
+    moves = [x for x in S.walk(bt.body) if x["k"] == "Binary" and x["op"] in ("+=", "-=") and S.is_path(x.get("left", x.get("lhs")), cur)] + \
+            [x for x in S.walk(bt.body) if x["k"] == "Assign" and S.is_path(x["left"], cur)]
     run.ob("R12.2", "build_tree|cursor moves only with an emitted token", len(moves) == n, site(PARSER, bt.node["sp"]), f"{len(moves)} cursor updates for {n} emissions")
     adv = model.fn("advance", PARSER, impl="Parser")
     t = S.norm_ws(run.facts.text(PARSER, adv.body["sp"]))
@@ -216,13 +291,34 @@ def r12_5(run, model, mir):
     run.ob("R12.5", "parser crate|no range construction", bad == 0, None, f"{bad} constructions in the parser, {ctrl} in the lexer (control)")
     run.floor("positive control: TextRange constructions recognised in the lexer", ctrl, 1)
     # the Error event takes its range from a token
-    bt = model.fn("build_tree", PARSER)
+    B = _BuildTree(run, model)
+    bt = B.f
     ok = False
     for m in S.find(bt.body, "Match"):
         for arm in m["arms"]:
             if "Event::Error" in S.norm_ws(run.facts.text(PARSER, arm["pat"]["sp"])):
-                t = S.norm_ws(run.facts.text(PARSER, arm["body"]["sp"]))
-                ok = "tokens.get(cursor).map(|token|token.range)" in t and "tokens.last().map(|token|token.range)" in t
+                # what with_range receives is made of tokens.get(cursor), tokens.last() and their `.range` - nothing else
+                lets = {}
+                for l in S.find(arm["body"], "Local"):
+                    if l.get("init") is not None:
+                        for b_ in S.pat_bindings(l["pat"]):
+                            lets.setdefault(b_, []).append(l["init"])
+                for wr in S.walk(arm["body"]):
+                    if wr["k"] != "MethodCall" or wr["method"] != "with_range" or not wr["args"]:
+                        continue
+                    seen, work, exprs = set(), [wr["args"][0]], []
+                    while work:
+                        x = work.pop()
+                        exprs.append(x)
+                        for nm in S.idents(x):
+                            if nm in lets and nm not in seen:
+                                seen.add(nm)
+                                work.extend(lets[nm])
+                    calls_ = {c["method"] for x in exprs for c in S.walk(x) if c["k"] == "MethodCall"} | \
+                             {S.callee_name(c) for x in exprs for c in S.walk(x) if c["k"] == "Call"}
+                    fields = {c.get("member") for x in exprs for c in S.walk(x) if c["k"] == "Field"}
+                    ok = any(B.is_cur_get(x) for x in exprs) and "last" in calls_ and "range" in fields and \
+                        calls_ <= {"get", "last", "map", "or", "or_else", "and_then", "copied", "cloned", "as_ref"} and fields <= {"range"}
     run.ob("R12.5", "build_tree|error range is a token's range", ok, site(PARSER, bt.node["sp"]), "current token's range, else the last token's range" if ok else "error range is computed differently")
 
 
@@ -267,15 +363,11 @@ def r12_10(run, model):
                    witness="with lexer Error tokens skipped by the cursor but not by build_tree, the builder falls one token behind per stray `$`: "
                            "the last tokens never enter the tree and it no longer spells the input")
     run.floor("token-kind decisions in parser/input.rs", n, 5)
-    bt = model.fn("build_tree", PARSER)
-    loops = [w for w in S.find(bt.body, "While") if w["cond"]["k"] == "Let"]
-    ok = False
-    for w in loops:
-        conds = [c["cond"] for c in S.find(w["body"], "If")]
-        if conds and any("is_trivia" in S.norm_ws(run.facts.text(PARSER, c["sp"])) for c in conds):
-            bad = [c for c in conds if any(x["k"] == "Macro" and x["name"] == "T" and S.norm_ws(x.get("tokens") or "") != "eof" for x in S.walk(c)) or
-                   any(x["k"] in ("Call", "MethodCall") and S.callee_name(x) not in ALLOWED for x in S.walk(c))]
-            ok = not bad
+    B = _BuildTree(run, model)
+    bt = B.f
+    table = B.trailing_break_table()
+    # attached without an event: exactly the trivia before the end of input (stop at the first token that is not trivia, go on over trivia)
+    ok = table is not None and table[(False, False)] and not table[(False, True)]
     run.ob("R12.10", "build_tree|tokens attached without an event are the trivia", ok, site(PARSER, bt.node["sp"]),
            "the trailing loop stops at the first token that is not trivia (or at end of input)" if ok else "the trailing loop uses another notion of skippable token")
 
